@@ -14,6 +14,8 @@ def main():
                 out[f'{relpath}:{name}'] = val
             elif isinstance(val, (tuple, list)) and all(isinstance(x, (int, str, bool)) for x in val):
                 out[f'{relpath}:{name}'] = list(val)
+            elif hasattr(val, 'pattern') and hasattr(val, 'flags'):
+                out[f'{relpath}:{name}'] = {'__regex__': val.pattern, 'flags': int(val.flags)}
         except Exception as ex:
             out[f'{relpath}:{name}'] = {'error': repr(ex)}
     if len(sys.argv) > 2:
